@@ -152,6 +152,31 @@ static void check_order(const ref::Complex& m) {
     }
     if (any_inf) vf::stats().add("nv.has_infinite_values");
   }
+  // (v) pruning with a live filtration cache that ignores the infinite simplices (a legitimate state: the cache is a
+  //     user-chosen view, prune_above_filtration is about the complex): result must still be the sublevel complex
+  {
+    std::set<double> fin;
+    for (auto& kv : m.s) if (kv.second != INF) fin.insert(kv.second);
+    // prune b at the largest finite value (only the infinite simplices go), a at the smallest finite value
+    if (!fin.empty() && !Opt::contiguous_vertices) {
+      for (int which = 0; which < 2; ++which) {
+        ST& tr = which == 0 ? b : a;
+        double t = which == 0 ? *fin.rbegin() : *fin.begin();
+        tr.initialize_filtration(true);
+        ref::Complex w = m;
+        bool wm = w.prune_above_filtration(t);
+        bool gm = tr.prune_above_filtration((FV)t);
+        if (gm != wm) bad("prune_above_filtration(with cache ignoring infinite values):return", "model=" + m.key() + " t=" + std::to_string(t));
+        std::vector<Simplex> got;
+        for (auto sh : tr.complex_simplex_range()) got.push_back(simplex_of(tr, sh));
+        std::sort(got.begin(), got.end());
+        std::vector<Simplex> ws;
+        for (auto& kv : w.s) ws.push_back(kv.first);
+        if (got != ws) bad("prune_above_filtration(with cache ignoring infinite values):not-the-sublevel-complex", "model=" + m.key() + " t=" + std::to_string(t) + " got " + strset(got));
+        vf::stats().add("ev.transitions");
+      }
+    }
+  }
   {
     bool ties = false;
     std::set<double> vs;
